@@ -542,8 +542,18 @@ impl Runner {
                     } else if fwd.is_empty() {
                         self.dups += 1;
                         "dup".to_string()
-                    } else {
+                    } else if exact == Some(mid) {
+                        // a duplicate that was forwarded: never on the unchanged code
                         format!("dup+{}", hcore::list(&fwd))
+                    } else {
+                        // outside an exact window the sends after a duplicate are IWANT answers
+                        // handled in the same poll
+                        self.dups += 1;
+                        self.op(format!("{kind} {mid} {u} {v}"), "dup".to_string());
+                        for w in &fwd {
+                            self.op(format!("sendx {mid} {v} {w}"), "ok".into());
+                        }
+                        continue;
                     };
                     self.op(format!("{kind} {mid} {u} {v}"), imp);
                 }
